@@ -163,7 +163,7 @@ func knownWitnesses(r *hk.Run) {
 		{"F-C14-8", clsStaleCache, func() witnessRes {
 			// proxycache.ReceiveBlob: origin first, then the cache; a RemoveBlobs (cache, then origin)
 			// between the two leaves the removed blob in the cache for good
-			return witness("proxy", 1 << 20, p3, "sto.ReceiveBlob", 2, nil, opIn{Kind: "recv", K: 0},
+			return witness("proxy", 1<<20, p3, "sto.ReceiveBlob", 2, nil, opIn{Kind: "recv", K: 0},
 				[]opIn{{Kind: "rm", K: 0}}, []opIn{{Kind: "stat", K: 0}, {Kind: "fetch", K: 0}, {Kind: "enum", After: "", Limit: 1000}})
 		}},
 	}
